@@ -222,6 +222,21 @@ func errInfo(err error) map[string]any {
 	var ns *sack.NotSupportedError
 	m["notsupported"] = errors.As(err, &ns)
 	causes := []string{}
+	var he *httpError
+	if errors.As(err, &he) {
+		for _, op := range []string{"newsink", "newsource", "setfilter", "setdeadline", "read", "write", "close_sink", "close_source"} {
+			if strings.Contains(he.body, "injected-"+op) {
+				causes = append(causes, op)
+			}
+			for r := 1; r <= 400; r++ {
+				if strings.Contains(he.body, fmt.Sprintf("injected-%s@%d-", op, r)) {
+					causes = append(causes, fmt.Sprintf("%s@%d", op, r))
+				}
+			}
+		}
+		m["causes"] = causes
+		return m
+	}
 	for _, op := range []string{"newsink", "newsource", "setfilter", "setdeadline", "read", "write", "close_sink", "close_source"} {
 		if errors.Is(err, wire.SentinelFor(op)) {
 			causes = append(causes, op)
